@@ -1,0 +1,422 @@
+//! Verification hooks (only compiled with the `rva_verif` feature).
+//!
+//! The analyzer has exactly one source of internal nondeterminism: the
+//! iteration order of hash sets keyed by random UUIDs. The hooks in this
+//! module turn every order-sensitive iteration into a decision owned by an
+//! external explorer ("schedule"), and count fixed-point sweeps.
+//!
+//! All hooks are no-ops unless [`begin`] has been called on the current
+//! thread, so enabling the feature alone changes no behaviour.
+#![allow(clippy::missing_panics_doc, clippy::must_use_candidate)]
+
+use std::cell::RefCell;
+use std::collections::{HashMap, HashSet, VecDeque};
+use std::rc::Rc;
+
+use uuid::Uuid;
+
+use crate::cfg::CfgNode;
+use crate::parser::{Label, LabelStringToken};
+use crate::passes::DiagnosticLocation;
+
+/// Which set of a CFG node an iteration order belongs to.
+#[derive(Clone, Copy, PartialEq, Eq, Hash, Debug)]
+pub enum Kind {
+    Nexts,
+    Prevs,
+    Labels,
+}
+
+/// One decision taken during a run.
+#[derive(Clone, Debug, PartialEq, Eq)]
+pub struct Decision {
+    pub site: &'static str,
+    pub alternatives: u32,
+    pub chosen: u32,
+}
+
+/// Sweeps used by one run of a fixed-point pass.
+#[derive(Clone, Debug, PartialEq, Eq)]
+pub struct PassRun {
+    pub pass: &'static str,
+    pub nodes: usize,
+    pub sweeps: usize,
+}
+
+/// Everything recorded between [`begin`] and [`end`].
+#[derive(Clone, Debug, Default)]
+pub struct Report {
+    pub decisions: Vec<Decision>,
+    pub passes: Vec<PassRun>,
+}
+
+#[derive(Default)]
+struct State {
+    active: bool,
+    choices: Vec<u32>,
+    pos: usize,
+    report: Report,
+    // (generation, index) of every registered CFG node, keyed by address
+    ranks: HashMap<usize, (usize, usize)>,
+    generation: usize,
+    // memoized total order per set instance: (owner rank, kind) -> element keys
+    orders: HashMap<((usize, usize), Kind), Vec<(usize, usize)>>,
+    // memoized first label of an undefined-label error
+    picked_label: Option<(usize, usize)>,
+    file_ranks: HashMap<Uuid, usize>,
+    sweep_limit_factor: usize,
+    sweep_limit_slack: usize,
+}
+
+thread_local! {
+    static STATE: RefCell<State> = RefCell::new(State::default());
+}
+
+/// Start a controlled run: `choices` is the prefix of decisions to replay;
+/// every later decision takes alternative 0 (the canonical order).
+pub fn begin(choices: &[u32]) {
+    STATE.with(|s| {
+        let mut s = s.borrow_mut();
+        let file_ranks = std::mem::take(&mut s.file_ranks);
+        *s = State::default();
+        s.file_ranks = file_ranks;
+        s.active = true;
+        s.choices = choices.to_vec();
+        s.sweep_limit_factor = 4;
+        s.sweep_limit_slack = 32;
+    });
+}
+
+/// Change the abort threshold `factor * nodes + slack` for sweeps per pass run.
+pub fn set_sweep_limit(factor: usize, slack: usize) {
+    STATE.with(|s| {
+        let mut s = s.borrow_mut();
+        s.sweep_limit_factor = factor;
+        s.sweep_limit_slack = slack;
+    });
+}
+
+/// End a controlled run and return what was recorded.
+pub fn end() -> Report {
+    STATE.with(|s| {
+        let mut s = s.borrow_mut();
+        s.active = false;
+        assert!(
+            s.pos >= s.choices.len(),
+            "rva_verif: schedule prefix not consumed ({} of {})",
+            s.pos,
+            s.choices.len()
+        );
+        std::mem::take(&mut s.report)
+    })
+}
+
+/// Abandon a run (after a panic), returning what was recorded so far.
+pub fn abort() -> Report {
+    STATE.with(|s| {
+        let mut s = s.borrow_mut();
+        s.active = false;
+        std::mem::take(&mut s.report)
+    })
+}
+
+pub fn is_active() -> bool {
+    STATE.with(|s| s.borrow().active)
+}
+
+/// Tell the hooks in which order files were imported (rank 0 = base file).
+pub fn register_file(file: Uuid, rank: usize) {
+    STATE.with(|s| {
+        s.borrow_mut().file_ranks.insert(file, rank);
+    });
+}
+
+pub fn clear_files() {
+    STATE.with(|s| s.borrow_mut().file_ranks.clear());
+}
+
+impl State {
+    fn choose(&mut self, site: &'static str, alternatives: usize) -> usize {
+        if alternatives < 2 {
+            return 0;
+        }
+        let chosen = if let Some(c) = self.choices.get(self.pos) {
+            assert!(
+                (*c as usize) < alternatives,
+                "rva_verif: replay divergence at decision {} ({site}): {c} >= {alternatives}",
+                self.pos
+            );
+            *c as usize
+        } else {
+            0
+        };
+        self.pos += 1;
+        #[allow(clippy::cast_possible_truncation)]
+        self.report.decisions.push(Decision {
+            site,
+            alternatives: alternatives as u32,
+            chosen: chosen as u32,
+        });
+        chosen
+    }
+
+    fn rank_of(&self, node: &CfgNode) -> (usize, usize) {
+        let addr = std::ptr::from_ref::<CfgNode>(node) as usize;
+        self.ranks
+            .get(&addr)
+            .copied()
+            .unwrap_or((usize::MAX, addr))
+    }
+
+    /// Bring `present` (keys of the elements currently in the set instance)
+    /// into the memoized order of that instance, deciding where each element
+    /// seen for the first time is inserted.
+    fn arrange(
+        &mut self,
+        site: &'static str,
+        instance: ((usize, usize), Kind),
+        present: &[(usize, usize)],
+    ) -> Vec<usize> {
+        let mut order = self.orders.remove(&instance).unwrap_or_default();
+        let mut fresh: Vec<(usize, usize)> = present
+            .iter()
+            .copied()
+            .filter(|k| !order.contains(k))
+            .collect();
+        fresh.sort_unstable();
+        fresh.dedup();
+        for key in fresh {
+            let canonical = order.iter().filter(|o| **o < key).count();
+            let alt = self.choose(site, order.len() + 1);
+            let position = if alt == 0 {
+                canonical
+            } else if alt - 1 < canonical {
+                alt - 1
+            } else {
+                alt
+            };
+            order.insert(position, key);
+        }
+        // indices into `present`, in memoized order
+        let mut result = Vec::with_capacity(present.len());
+        for key in &order {
+            for (i, p) in present.iter().enumerate() {
+                if p == key && !result.contains(&i) {
+                    result.push(i);
+                }
+            }
+        }
+        self.orders.insert(instance, order);
+        result
+    }
+}
+
+/// H9: give every node of a freshly built CFG its hash-independent rank.
+pub fn register_nodes(nodes: &[Rc<CfgNode>]) {
+    STATE.with(|s| {
+        let mut s = s.borrow_mut();
+        if !s.active {
+            return;
+        }
+        s.generation += 1;
+        let generation = s.generation;
+        for (i, n) in nodes.iter().enumerate() {
+            s.ranks.insert(Rc::as_ptr(n) as usize, (generation, i));
+        }
+    });
+}
+
+fn arrange_nodes(
+    site: &'static str,
+    owner: &CfgNode,
+    kind: Kind,
+    items: &[Rc<CfgNode>],
+) -> Option<Vec<usize>> {
+    STATE.with(|s| {
+        let mut s = s.borrow_mut();
+        if !s.active {
+            return None;
+        }
+        let instance = (s.rank_of(owner), kind);
+        let present: Vec<_> = items.iter().map(|n| s.rank_of(n)).collect();
+        Some(s.arrange(site, instance, &present))
+    })
+}
+
+/// H2: the last `n` elements of `queue` were pushed in raw hash order from the
+/// set `kind` of `owner`; put them into the controlled order.
+pub fn order_tail(
+    site: &'static str,
+    queue: &mut Vec<Rc<CfgNode>>,
+    n: usize,
+    owner: &CfgNode,
+    kind: Kind,
+) {
+    if n < 2 || queue.len() < n {
+        return;
+    }
+    let start = queue.len() - n;
+    let tail: Vec<_> = queue.split_off(start);
+    match arrange_nodes(site, owner, kind, &tail) {
+        Some(order) => {
+            for i in order {
+                if let Some(x) = tail.get(i) {
+                    queue.push(Rc::clone(x));
+                }
+            }
+        }
+        None => queue.extend(tail),
+    }
+}
+
+/// H3: same as [`order_tail`] for the BFS queues.
+pub fn order_tail_deque(
+    site: &'static str,
+    queue: &mut VecDeque<Rc<CfgNode>>,
+    n: usize,
+    owner: &CfgNode,
+    kind: Kind,
+) {
+    if n < 2 || queue.len() < n {
+        return;
+    }
+    let start = queue.len() - n;
+    let tail: Vec<_> = queue.split_off(start).into_iter().collect();
+    match arrange_nodes(site, owner, kind, &tail) {
+        Some(order) => {
+            for i in order {
+                if let Some(x) = tail.get(i) {
+                    queue.push_back(Rc::clone(x));
+                }
+            }
+        }
+        None => queue.extend(tail),
+    }
+}
+
+fn label_key(s: &State, l: &LabelStringToken) -> (usize, usize) {
+    let file = s.file_ranks.get(&l.file()).copied().unwrap_or(usize::MAX);
+    (file, l.range().start().raw_index())
+}
+
+/// H4: the labels of `owner` collected in raw hash order.
+pub fn reorder_labels(site: &'static str, labels: Vec<Label>, owner: &CfgNode) -> Vec<Label> {
+    STATE.with(|s| {
+        let mut s = s.borrow_mut();
+        if !s.active || labels.len() < 2 {
+            return labels;
+        }
+        let instance = (s.rank_of(owner), Kind::Labels);
+        let present: Vec<_> = labels.iter().map(|l| label_key(&s, &l.name)).collect();
+        let order = s.arrange(site, instance, &present);
+        order
+            .into_iter()
+            .filter_map(|i| labels.get(i).cloned())
+            .collect()
+    })
+}
+
+/// H5: the element an unordered label set yields first.
+pub fn pick_label(site: &'static str, labels: &HashSet<LabelStringToken>) -> Option<LabelStringToken> {
+    STATE.with(|s| {
+        let mut s = s.borrow_mut();
+        if !s.active || labels.is_empty() {
+            return None;
+        }
+        let mut keyed: Vec<_> = labels.iter().map(|l| (label_key(&s, l), l)).collect();
+        keyed.sort_by_key(|(k, _)| *k);
+        if let Some(k) = s.picked_label {
+            if let Some((_, l)) = keyed.iter().find(|(kk, _)| *kk == k) {
+                return Some((*l).clone());
+            }
+        }
+        let alt = s.choose(site, keyed.len());
+        let (k, l) = keyed.get(alt)?;
+        s.picked_label = Some(*k);
+        Some((*l).clone())
+    })
+}
+
+/// H6: a fixed-point pass starts running over `nodes` nodes.
+pub fn pass_begin(pass: &'static str, nodes: usize) {
+    STATE.with(|s| {
+        let mut s = s.borrow_mut();
+        if s.active {
+            s.report.passes.push(PassRun {
+                pass,
+                nodes,
+                sweeps: 0,
+            });
+        }
+    });
+}
+
+/// H6: one more sweep of the pass started last.
+pub fn sweep() {
+    let over = STATE.with(|s| {
+        let mut s = s.borrow_mut();
+        if !s.active {
+            return None;
+        }
+        let limit_factor = s.sweep_limit_factor;
+        let limit_slack = s.sweep_limit_slack;
+        let run = s.report.passes.last_mut()?;
+        run.sweeps += 1;
+        if run.sweeps > limit_factor * run.nodes + limit_slack {
+            Some((run.pass, run.nodes, run.sweeps))
+        } else {
+            None
+        }
+    });
+    if let Some((pass, nodes, sweeps)) = over {
+        panic!("rva_verif: sweep limit exceeded in {pass}: {sweeps} sweeps over {nodes} nodes");
+    }
+}
+
+/// H8: start a controlled run from the environment (CLI). `RVA_VERIF_SCHEDULE`
+/// holds comma-separated decisions (may be empty).
+pub fn init_from_env() {
+    if let Ok(text) = std::env::var("RVA_VERIF_SCHEDULE") {
+        let choices: Vec<u32> = text
+            .split(',')
+            .filter_map(|x| x.trim().parse().ok())
+            .collect();
+        clear_files();
+        begin(&choices);
+    }
+}
+
+/// H8: the UUID of the `n`-th imported file. With `RVA_VERIF_FILE_ORDER=2,0,1`
+/// the n-th file gets a UUID whose sort position is the n-th entry.
+pub fn file_uuid(original: Uuid, n: usize) -> Uuid {
+    let chosen = match std::env::var("RVA_VERIF_FILE_ORDER") {
+        Ok(text) => {
+            let order: Vec<u128> = text
+                .split(',')
+                .filter_map(|x| x.trim().parse().ok())
+                .collect();
+            match order.get(n) {
+                Some(r) => Uuid::from_u128(r + 1),
+                None => Uuid::from_u128(n as u128 + 1001),
+            }
+        }
+        Err(_) => original,
+    };
+    register_file(chosen, n);
+    chosen
+}
+
+/// H8: write the decisions of a CLI run to `RVA_VERIF_TRACE_OUT`.
+pub fn finish_to_env() {
+    if !is_active() {
+        return;
+    }
+    let report = abort();
+    if let Ok(path) = std::env::var("RVA_VERIF_TRACE_OUT") {
+        let mut text = String::new();
+        for d in &report.decisions {
+            text.push_str(&format!("{} {} {}\n", d.site, d.alternatives, d.chosen));
+        }
+        let _ = std::fs::write(path, text);
+    }
+}
